@@ -50,6 +50,19 @@ CLAIMED.update({
  "C19": wr("C19", "Inv_C19 (a rejected call leaves open, wbuf and dest unchanged - also inside Full: all or nothing) and Inv_C19_Class (each kind of invalid call is rejected with its specific error)", "calls (valid call sequences with failing calls of every kind inserted at random positions, paired with the sequence without them: final output and later results equal)"),
 })
 
+CLAIMED.update({
+ "C11": ("TLA+ declarative path semantics (Schema!Matches) proved equal to a single-pass matcher on a bounded universe by TLC (MC_PathMatch); recorded hierarchy verdicts of the real writer and strict reader validated against it by TLC (PathTrace / P_C11)",
+         "TLC checks MatchAlgo = Matches for every pattern of <= 3 parts (named parents, placeholders with min 0-2 and max unbounded/1/2/3 in leading, intermediate and trailing position) against every chain of <= 4/5 masters, plus the consequences the property states (roots only at top level, named parents exact, whole chain consumed, placeholder bounds). The driver paths builds random specifications with placeholders, opens chains with the real TagWriter by random walks (known- and unknown-size starts) and records for every attempted tag the writer's verdict and the strict reader's verdict on the corresponding byte stream (judged against the chain that remains after ClosedBy); paths_exhaustive replays the bounded universe of MC_PathMatch into the real writer. P_C11: verdict = Matches, rejections carry the offending id.",
+         "Trusted: TLC, Json module, harness recording. Reader verdicts only for chains starting at a root element. Beyond the bounded universe specifications and chains are sampled.", "6 C11"),
+ "C17": rd("C17", "CapBound (the buffer only grows for a payload that passed every header check, never beyond max(limit, initial capacity)) and the monitor P_C17", "all inputs <= 4/5 bytes with and without a size limit", "adversarial (declared sizes 0..2^56-2 in every vint width at the root and inside known-/unknown-size masters, limits 16..default 4 GB/none, tolerance sets, capacities; peak heap growth per call from a counting allocator, capacity from the hook), mutate, total"),
+ "C18": ("TLA+ reference semantics of the declaration language (DeriveDecl: Accepts, Table) model-checked by TLC (MC_Derive); translation validation of the macros: acceptance of both front-ends and probes of compiled generated code validated against it by TLC (DeriveTrace / P_C18)",
+         "TLC enumerates every declaration of <= 2 variants over a small vocabulary (MC_Derive: 5.4 M declarations) and checks that what Accepts admits denotes a well-formed schema (bad-specification panics unreachable) and that each listed kind of broken declaration is rejected. The macro sources of the working tree are called as a library on token streams for random well-formed declarations and declarations broken by one of 13 rules (both front-ends; acceptance and token equality recorded); accepted declarations are compiled with the real macros against /repo and every declared id plus undeclared probe ids are queried through the generated trait functions (type, path, constructors, accessors, id/value returned, raw tag) and exercised with the iterator and writer under catch_unwind. P_C18: res = Accepts(D), table = Table(D), no panic.",
+         "Trusted: TLC, Json module, rustc. Compile errors are observed as rejections of the macro implementation called as a library; diagnostic texts are not checked. Declarations are sampled beyond the bounded model.", "6 C18"),
+ "C20": ("TLA+ refinement of the async wrapper to the blocking reader checked by TLC (MC_Async, intended wrapper; the current one-read-per-call wrapper is the named deviation DEV_ASYNC_STRADDLE); recorded runs of TagIteratorAsync / into_stream validated against the blocking run by TLC (ReaderTrace mode C20, relation P_C04)",
+         "MC_Async explores every input <= 4/5 bytes and every split of it into async read results and checks that the intended wrapper yields exactly the blocking iterator's results, ending once. The driver async runs the real TagIteratorAsync::next() loop and the stream adapter on a single-threaded executor over a scripted AsyncRead (whole input at once, every partition of inputs <= 10 bytes, random partitions, inputs above the 64 KiB transfer buffer, buffered-tag sets) next to the blocking iterator; TLC evaluates the equality relation per case. Runs in which the source needed more than one read and that differ are explained only through the listed known finding DEV_ASYNC_STRADDLE and reported as KNOWN-FINDING.",
+         "Trusted: TLC, Json module, futures executor. Because of the known finding, regressions confined to multi-read schedules are not detected by this check; single-read schedules (and the stream adapter on them) are.", "6 C20"),
+})
+
 NA_REASON = "check not built yet (work in progress in this round)"
 
 def main():
